@@ -185,6 +185,29 @@ def theorem_names(props_file):
     return re.findall(r"^\s*(?:Theorem|Lemma|Corollary)\s+(\w+)", txt, re.M)
 
 
+def coqchk_status(props_files, workdir, timeout=3000):
+    """Thorough tier: re-check the compiled property modules and everything they depend on with the independent
+    checker and report the axioms it finds (`coqchk -silent -o`)."""
+    if isinstance(props_files, str):
+        props_files = [props_files]
+    mods = ["V.props." + os.path.splitext(os.path.basename(f))[0] for f in props_files]
+    cmd = ["timeout", str(timeout), "coqchk", "-silent", "-o"] + vlib.coq_flags() + mods
+    t0 = time.time()
+    p = subprocess.run(cmd, cwd=vlib.COQ, capture_output=True, text=True)
+    out = p.stdout + p.stderr
+    m = re.search(r"\* Axioms:(.*?)\n\s*\n\* Constants/Inductives relying on type-in-type:(.*?)\n\s*\n"
+                  r"\* Constants/Inductives relying on unsafe \(co\)fixpoints:(.*?)\n\s*\n"
+                  r"\* Inductives whose positivity is assumed:(.*?)\n", out, re.S)
+    res = {"rc": p.returncode, "wall_s": round(time.time() - t0, 1), "modules": mods}
+    if m:
+        res.update({"axioms": re.sub(r"\s+", " ", m.group(1)).strip(), "type_in_type": re.sub(r"\s+", " ", m.group(2)).strip(),
+                    "unsafe_fixpoints": re.sub(r"\s+", " ", m.group(3)).strip(), "assumed_positivity": re.sub(r"\s+", " ", m.group(4)).strip()})
+    else:
+        res["raw"] = out[-1500:]
+    res["ok"] = p.returncode == 0 and m is not None and all(res[k] == "<none>" for k in ("axioms", "type_in_type", "unsafe_fixpoints", "assumed_positivity"))
+    return res
+
+
 def proof_status(pid, props_file, workdir):
     """Builds the development; returns dict(ok, obligations, discharged, failed_files, assumptions, detail).
     props_file may be a list of files; results are merged."""
@@ -307,6 +330,12 @@ def run_check(spec):
                     "forbidden": ps["forbidden"], "detail": ps["detail"]})
     model_ok = all(os.path.exists(os.path.join(vlib.COQ, f + "o")) for f in ps["closure"]
                    if f.startswith("model/") or f.startswith("lib/") or f.startswith("gen/"))
+    chk = None
+    if tier == "thorough" and ps["ok"]:
+        with vlib.Lock("coq"):
+            chk = coqchk_status(spec["props_file"], workdir)
+        if not chk["ok"]:
+            red.append({"what": "proof", "detail": "coqchk -o: " + json.dumps(chk)[:1500]})
 
     # 3+4 correspondence and monitors
     evaluations = 0
@@ -321,7 +350,11 @@ def run_check(spec):
         vlib.build_harness()
         suites = spec["suites"](tier, rng, spec_replay)
         for suite in suites:
-            r = eval_suite(suite, workdir)
+            try:
+                r = eval_suite(suite, workdir)
+            except vlib.BuildError as e:   # one suite's harness run failing must not hide what the others find
+                red.append({"what": "harness-run", "suite": suite.name, "detail": str(e)[-3000:]})
+                continue
             evaluations += r["evaluations"]
             steps += r["steps"]
             hist = {}
@@ -423,6 +456,8 @@ def run_check(spec):
         "known_findings_confirmed": sorted(known_hits.keys()),
         "broken": [r["what"] for r in red],
     }
+    if chk is not None:
+        cov["coqchk"] = chk
     if cov["discharged"] < 1 or cov["discharged"] != cov["obligations"]:
         # proof broken: keep the file schema-valid through the generic keys, say so explicitly
         cov["obligations_total"] = cov.pop("obligations")
